@@ -31,9 +31,11 @@ META = dict(
                "an AST scan shows they contain no partial operation (theorem over the table). Tied to the code by "
                "differential execution of the real SemanticCheckAnalyzer and the real lint on generated and exhaustive "
                "small-scope methods; the oracle checks the named item kind per offending line in the lint output. Theorem "
-               "lint_history_is_pure: over any protocol-conforming history of registrations, definition updates and lints "
-               "each lint equals the pure function of (current definition, current text); a history stream drives the real "
-               "lint with one engine id / one document while the tag and command sets change.",
+               "lint_history_is_pure: over any protocol-conforming history of registrations (with the engine's data gone or kept), "
+               "definition updates and lints by any sessions each lint equals the pure function of (current definition, "
+               "text of that call); a history stream drives the real aggregator message handlers (register, disconnect, "
+               "UodInfo) and the real lint with one engine and several editor sessions (same uri, independent version "
+               "counters) while the tag and command sets change.",
     level_note="The model follows the code with fixes/C19-undefined-tag-falls-through.diff (committed) and "
                "fixes/C19-tag-unit-unknown-to-unit-table.diff (proposed: a tag published with a unit this installation's "
                "unit table lacks made the analysis raise; on a tree without it the check reports that violation). Hypotheses: "
@@ -282,6 +284,7 @@ def observe(case: dict, editor: bool = True) -> dict:
         return obs
     # the editor path
     lsp_analysis.create_analysis_input.cache_clear()
+    saved_fetch = lsp_analysis.fetch_uod_info
     lsp_analysis.fetch_uod_info = lambda _eid: uod
     doc = Document(uri="file://workspace/uri", workspace=Workspace(root_uri="", endpoint=None, config=None),
                    source=case["text"])
@@ -290,6 +293,9 @@ def observe(case: dict, editor: bool = True) -> dict:
         obs["lint"], obs["lint_error_lines"], obs["lint_errors"] = canonical_diagnostics(diags)
     except Exception as e:  # noqa: BLE001
         obs["lint"] = "err:lint-raised:" + type(e).__name__
+    finally:
+        lsp_analysis.fetch_uod_info = saved_fetch      # the history stream uses the real one
+        lsp_analysis.create_analysis_input.cache_clear()
     return obs
 
 
@@ -651,87 +657,158 @@ def h_text(rng, n: int) -> tuple[str, list[dict]]:
     return "\n".join(lines), refs
 
 
+def h_set(rng) -> tuple[list, list]:
+    return ([[t, None] for t in rng.sample(H_TAGS, rng.randrange(1, len(H_TAGS) + 1))],
+            [[c, None] for c in rng.sample(H_CMDS, rng.randrange(1, len(H_CMDS) + 1))])
+
+
+class HSession:
+    """One editor session (one user's browser page = one language-server connection): its own text and its own document
+    version counter 1, 2, 3, … (or no versions at all).  All sessions edit the same uri of the same engine."""
+
+    def __init__(self, rng, sid: int, text: str, refs: list, versioned: bool):
+        self.rng, self.sid, self.text, self.refs = rng, sid, text, refs
+        self.version: int | None = 0 if versioned else None
+
+    def lint(self, edit: bool) -> dict:
+        if edit or self.version == 0:
+            if edit:
+                self.text, self.refs = h_text(self.rng, self.rng.randrange(2, 6))
+            if self.version is not None:
+                self.version += 1
+        return {"op": "lint", "session": self.sid, "text": self.text, "refs": self.refs, "version": self.version}
+
+
 def history_cases(ctx: Check) -> list[dict]:
-    """Steps: register (cache_clear, no definition) · uodinfo (definition) · lint (same uri; the version changes only
-    when the text does).  The sets change between lints of the SAME document; texts change with the set fixed."""
+    """Steps (all through the real aggregator handlers and the real `lint`):
+      register {keep}  handle_RegisterEngineMsg; keep=false: the previous connection's handle_EngineDisconnected ran
+                       first (engine data gone), keep=true: it did not complete (engine data still present)
+      uodinfo          handle_UodInfoMsg with the definition (tags, commands)
+      lint {session}   one of several editor sessions lints its document (same uri; independently counted versions or
+                       version None; open / change / save)
+    The sets change between lints of the SAME document; the texts change with the set fixed; sessions interleave.
+    Protocol: one UodInfo after each registration; no lint between a keep-registration and its UodInfo."""
     rng = ctx.rng
     out = []
-    for _ in range(ctx.n(60, 1500)):
+    for _ in range(ctx.n(70, 1500)):
         steps: list[dict] = []
-        text, refs = h_text(rng, rng.randrange(2, 6))
-        version = 1
-
-        def new_set():
-            return ([[t, None] for t in rng.sample(H_TAGS, rng.randrange(1, len(H_TAGS) + 1))],
-                    [[c, None] for c in rng.sample(H_CMDS, rng.randrange(1, len(H_CMDS) + 1))])
-        steps.append({"op": "register"})
+        saved_text, saved_refs = h_text(rng, rng.randrange(2, 6))
+        # every session opens the method as saved (version 1 each), then edits on its own
+        sessions = [HSession(rng, k, saved_text, saved_refs, versioned=rng.random() < 0.8)
+                    for k in range(rng.choice([1, 1, 2, 2, 3]))]
+        steps.append({"op": "register", "keep": False})
         if rng.random() < 0.15:
-            steps.append({"op": "lint", "text": text, "refs": refs, "version": version})   # before the UodInfo arrives
-        tags, cmds = new_set()
+            steps.append(rng.choice(sessions).lint(False))           # before the UodInfo arrives
+        tags, cmds = h_set(rng)
         steps.append({"op": "uodinfo", "tags": tags, "cmds": cmds})
-        for _ in range(rng.randrange(2, 6)):
+        for _ in range(rng.randrange(2, 8)):
             r = rng.random()
-            if r < 0.45:      # the engine re-registers with another definition; the document is untouched
-                steps.append({"op": "register"})
-                if rng.random() < 0.2:
-                    steps.append({"op": "lint", "text": text, "refs": refs, "version": version})
+            sess = rng.choice(sessions)
+            if r < 0.35:      # the engine re-registers with another definition; the documents are untouched
+                keep = rng.random() < 0.5
+                steps.append({"op": "register", "keep": keep})
+                if not keep and rng.random() < 0.2:
+                    steps.append(sess.lint(False))
                 if rng.random() < 0.5:   # drop / add one name the text may use
                     tags = [t for t in tags if rng.random() < 0.6] or [[rng.choice(H_TAGS), None]]
                     cmds = [c for c in cmds if rng.random() < 0.6] or [[rng.choice(H_CMDS), None]]
                 else:
-                    tags, cmds = new_set()
+                    tags, cmds = h_set(rng)
                 steps.append({"op": "uodinfo", "tags": tags, "cmds": cmds})
-            elif r < 0.65:    # the user edits the text; the set is fixed
-                text, refs = h_text(rng, rng.randrange(2, 6))
-                version += 1
-            steps.append({"op": "lint", "text": text, "refs": refs, "version": version})   # open / save / change
+                steps.append(sess.lint(False))
+            else:             # a user opens / edits / saves; the set is fixed
+                steps.append(sess.lint(edit=r < 0.75))
         out.append({"steps": steps, "kind": "history"})
-    # the minimal shape, for every kind of reference
+    full = {"op": "uodinfo", "tags": [["Pressure", None], ["Level", None]], "cmds": [["Fill", None], ["Drain", None]]}
+    less = {"op": "uodinfo", "tags": [["Level", None]], "cmds": [["Drain", None]]}
+    fresh, kept = {"op": "register", "keep": False}, {"op": "register", "keep": True}
+    # the minimal shapes, for every kind of reference
     for ref_line, kind in (("Watch: Pressure > 3\n    Mark: a", "tag"), ("Simulate off: Pressure", "tag"),
                           ("Simulate: Pressure = 2", "tag"), ("Fill: 5", "cmd"), ("Fill", "cmd")):
         name = "Pressure" if kind == "tag" else "Fill"
         refs = [{"line": 0, "kind": kind, "name": name}]
-        full = {"op": "uodinfo", "tags": [["Pressure", None], ["Level", None]], "cmds": [["Fill", None], ["Drain", None]]}
-        less = {"op": "uodinfo", "tags": [["Level", None]], "cmds": [["Drain", None]]}
-        lint = {"op": "lint", "text": ref_line, "refs": refs, "version": 7}
-        out.append({"steps": [{"op": "register"}, full, lint, {"op": "register"}, less, lint, lint,
-                              {"op": "register"}, full, lint], "kind": "history"})
-        out.append({"steps": [{"op": "register"}, less, lint, {"op": "register"}, full, lint], "kind": "history"})
+        for version in (7, None):
+            lint = {"op": "lint", "session": 0, "text": ref_line, "refs": refs, "version": version}
+            for again in (fresh, kept):     # the set shrinks / grows over a re-registration without / with the old data kept
+                out.append({"steps": [fresh, full, lint, again, less, lint, lint, again, full, lint], "kind": "history"})
+                out.append({"steps": [fresh, less, lint, again, full, lint], "kind": "history"})
+        # two sessions whose version counters coincide: A opens, B opens, A edits (valid), B edits (broken), A saves
+        ok_text, bad_text = "Mark: start\nMark: done", "Mark: start\n" + ref_line.replace(name, "Xyzzy" if kind == "tag" else "Frobnicate")
+        bad_refs = [{"line": 1, "kind": kind, "name": "Xyzzy" if kind == "tag" else "Frobnicate"}]
+        for vs in ((1, 1, 2, 2, 2), (None, None, None, None, None), (3, 3, 3, 3, 3)):
+            def ln(k, sid, text, rf):
+                return {"op": "lint", "session": sid, "text": text, "refs": rf, "version": vs[k]}
+            out.append({"steps": [fresh, full, ln(0, 0, "Mark: start", []), ln(1, 1, "Mark: start", []),
+                                  ln(2, 0, ok_text, []), ln(3, 1, bad_text, bad_refs), ln(4, 0, ok_text, [])],
+                        "kind": "history"})
+            out.append({"steps": [fresh, full, ln(0, 0, bad_text, bad_refs), ln(1, 1, ok_text, []),
+                                  ln(2, 0, bad_text, bad_refs)], "kind": "history"})
     return out
 
 
+_AGG = None
+
+
+def aggregator_harness():
+    """one in-process aggregator (harness/agg_common.py) for all histories of this run; every history uses its own engine"""
+    global _AGG
+    if _AGG is None:
+        from harness.agg_common import AggHarness
+        _AGG = AggHarness()
+    return _AGG
+
+
 def observe_history(case: dict, index: int) -> dict:
-    """Drive the real `lint` through the history (one engine id, one uri) the way production changes its inputs."""
+    """Drive the real aggregator handlers (`handle_RegisterEngineMsg`, `handle_EngineDisconnected`, `handle_UodInfoMsg`)
+    and the real `lint` (whose `fetch_uod_info` reads that aggregator) through the history, the way production changes
+    lint's inputs.  Nothing is patched: the aggregator is installed where `deps.get_aggregator()` finds it."""
+    import openpectus.aggregator.deps as agg_deps
+    import openpectus.protocol.engine_messages as EM
     import openpectus.protocol.models as ProMdl
+    from harness.agg_common import run as agg_run
     from openpectus.lsp import lsp_analysis
     from pylsp.workspace import Document, Workspace
-    engine_id, uri = f"eng-history-{index}", f"file://workspace/history-{index}"
-    ws = Workspace(root_uri="", endpoint=None, config=None)
-    current = {"uod": None}
-    saved_fetch = lsp_analysis.fetch_uod_info
-    lsp_analysis.fetch_uod_info = lambda _eid: current["uod"]
-    lsp_analysis.create_analysis_input.cache_clear()
+    h = aggregator_harness()
+    engine = index + 1
+    engine_id, uri = h.eid(engine), f"file://workspace/history-{index}"
+    saved_server = agg_deps._server
+    agg_deps._server = h.agg
+    workspaces: dict[int, Workspace] = {}
+    docs: dict[int, Document] = {}
     ops: list[str] = []
     outs: list[str] = []
     lints: list[dict] = []
+    refused: list[str] = []
     cur_tags: list = []
     cur_cmds: list = []
-    defined = False
-    doc = None
+    defined = False       # by the protocol: does the aggregator hold a definition for the engine now?
+    present = False       # … any data for the engine?
     try:
         for st in case["steps"]:
             if st["op"] == "register":
-                # handle_RegisterEngineMsg: fresh engine data (no uod definition yet) + create_analysis_input.cache_clear()
-                current["uod"] = None
-                lsp_analysis.create_analysis_input.cache_clear()
-                defined = False
-                ops.append("sess-register")
+                keep = bool(st.get("keep")) and present
+                if present and not keep:
+                    h.disconnect(engine)
+                reply = h.register(engine)
+                if not getattr(reply, "success", False) or getattr(reply, "engine_id", None) != engine_id:
+                    refused.append(f"step {len(ops)}: handle_RegisterEngineMsg answered {reply!r}")
+                present = True
+                defined = defined and keep
+                if not keep:
+                    cur_tags, cur_cmds = [], []
+                ops.append("sess-register-keep" if keep else "sess-register")
                 outs.append("ok")
             elif st["op"] == "uodinfo":
                 cur_tags, cur_cmds = st["tags"], st["cmds"]
-                current["uod"] = ProMdl.UodDefinition(
+                uod = ProMdl.UodDefinition(
                     commands=[ProMdl.CommandDefinition(name=n, validator=v, docstring="") for n, v in cur_cmds],
                     system_commands=[], tags=[ProMdl.TagDefinition(name=n, unit=u) for n, u in cur_tags])
+                reply = agg_run(h.handlers.handle_UodInfoMsg(EM.UodInfoMsg(
+                    engine_id=engine_id, readings=[], commands=[], uod_definition=uod,
+                    plot_configuration=ProMdl.PlotConfiguration.empty(), hardware_str="hw", required_roles=set(),
+                    data_log_interval_seconds=1.0)))
+                if type(reply).__name__ != "SuccessMessage":
+                    refused.append(f"step {len(ops)}: handle_UodInfoMsg answered {reply!r}")
                 defined = True
                 ref = observe({"text": "", "tags": cur_tags, "cmds": cur_cmds}, editor=False)
                 ops += ref["tag_ops"] + ref["cmd_ops"] + ["sess-uodinfo"]
@@ -740,44 +817,65 @@ def observe_history(case: dict, index: int) -> dict:
                 ref = observe({"text": st["text"], "tags": cur_tags if defined else [], "cmds": cur_cmds if defined else []},
                               editor=False)
                 ops += ref["sim_ops"] + ref["node_ops"] + ["sess-lint"]
-                if doc is None or doc.source != st["text"]:
-                    doc = Document(uri=uri, workspace=ws, source=st["text"], version=st["version"])
+                sid = st.get("session", 0)
+                ws = workspaces.setdefault(sid, Workspace(root_uri="", endpoint=None, config=None))
+                doc = docs.get(sid)
+                if doc is None or doc.source != st["text"] or doc.version != st["version"]:
+                    doc = docs[sid] = Document(uri=uri, workspace=ws, source=st["text"], version=st["version"])
                 try:
                     diags = lsp_analysis.lint(doc, engine_id=engine_id)
                     text, err_lines, errs = canonical_diagnostics(diags)
                 except Exception as e:  # noqa: BLE001
+                    core_reraise(e)
                     text, err_lines, errs = "err:lint-raised:" + type(e).__name__, None, set()
                 outs += ["ok"] * (len(ref["sim_ops"]) + len(ref["node_ops"])) + [text]
-                lints.append({"step": len(lints), "text": st["text"], "refs": st["refs"], "defined": defined,
+                lints.append({"step": len(lints), "session": sid, "version": st["version"], "text": st["text"],
+                              "refs": st["refs"], "defined": defined,
                               "tags": [n for n, _ in cur_tags], "cmds": [n for n, _ in cur_cmds],
                               "lint": text, "lint_errors": errs})
     finally:
-        lsp_analysis.fetch_uod_info = saved_fetch
+        try:
+            if present:
+                h.disconnect(engine)
+        except Exception:  # noqa: BLE001
+            pass
+        agg_deps._server = saved_server
         lsp_analysis.create_analysis_input.cache_clear()
-    return {"ops": ops, "outs": outs, "lints": lints}
+    return {"ops": ops, "outs": outs, "lints": lints, "refused": refused}
 
 
 def judge_history(case: dict, obs: dict) -> list[Failure]:
-    """Per lint call, w.r.t. the CURRENT set: nothing generic while a definition is there, every reference to a name
-    that is undefined now carries its error on its line."""
+    """Per lint call, w.r.t. the CURRENT set and the text OF THAT CALL: nothing generic while a definition is there,
+    every reference to a name that is undefined now carries its error on its line, no reference to a name that is
+    defined now is reported undefined, and no error sits on a line the text does not have."""
     pub = {"steps": case["steps"]}
-    fails = []
+    fails = [Failure("history:message-refused", pub, r) for r in obs["refused"]]
     for ln in obs["lints"]:
         if not ln["defined"]:
             continue   # between registration and UodInfo there is no definition to analyse against
+        who = f"lint #{ln['step']} (session {ln['session']}, version {ln['version']}) of {ln['text']!r} with tags " \
+              f"{ln['tags']} / commands {ln['cmds']}"
         if ln["lint"] == "generic" or ln["lint"].startswith("err"):
             fails.append(Failure("history:lint-replaces-diagnostics", pub,
-                                 f"lint #{ln['step']} returned {ln['lint']} although a definition is available"))
+                                 f"{who} returned {ln['lint']} although a definition is available"))
             continue
+        n_lines = len(ln["text"].split("\n"))
+        beyond = sorted(x for x in ln["lint_errors"] if x[0] >= n_lines)
+        if beyond:
+            fails.append(Failure("history:diagnostic-beyond-the-text", pub,
+                                 f"{who}: error diagnostics {beyond} on lines the text ({n_lines} lines) does not have"))
         for r in ln["refs"]:
             known = ln["tags"] if r["kind"] == "tag" else ln["cmds"]
             code = "Undefined tag" if r["kind"] == "tag" else "Undefined command"
+            what = "undefined-tag" if r["kind"] == "tag" else "undefined-command"
             if r["name"] not in known and (r["line"], code) not in ln["lint_errors"]:
-                what = "undefined-tag" if r["kind"] == "tag" else "undefined-command"
                 fails.append(Failure(f"history:no-diagnostic-on-line:{what}", pub,
-                                     f"lint #{ln['step']} of {ln['text']!r} with tags {ln['tags']} / commands {ln['cmds']}: "
-                                     f"line {r['line']} refers to {r['name']!r}, which is not defined now, and carries no "
-                                     f"{code!r} error (error diagnostics: {sorted(ln['lint_errors'])})"))
+                                     f"{who}: line {r['line']} refers to {r['name']!r}, which is not defined now, and "
+                                     f"carries no {code!r} error (error diagnostics: {sorted(ln['lint_errors'])})"))
+            if r["name"] in known and (r["line"], code) in ln["lint_errors"]:
+                fails.append(Failure(f"history:diagnostic-for-defined-name:{what}", pub,
+                                     f"{who}: line {r['line']} refers to {r['name']!r}, which is defined now, and carries "
+                                     f"a {code!r} error"))
     return fails
 
 
@@ -836,10 +934,12 @@ def run(ctx: Check) -> int:
                 "random methods of 1–8/14 lines (Watch/Alarm with bodies, Simulate, Simulate off, commands with "
                 "valid/invalid/no arguments, thresholds, blocks, non-recursive macros) against random tag/command sets; "
                 "(3) the same offending reference repeated on 2–3 lines (and, inside the random methods, earlier offending lines "
-                "re-used with probability 0.2); (4) histories: one engine id and one document (same uri, version, text) linted "
-                "repeatedly while the engine re-registers with other tag / command sets (register = cache_clear + no "
-                "definition, UodInfo = new definition), and edits of the text with the set fixed, oracle per lint call "
-                "w.r.t. the current set; (5) malformed text (mutated lines, random unicode lines, odd indentation). "
+                "re-used with probability 0.2); (4) histories over an in-process Aggregator driven through its real message "
+                "handlers: one engine and 1–3 editor sessions (documents with the same uri, independently counted versions "
+                "1,2,3… or version None; open / edit / save, interleaved) linting while the engine re-registers with other "
+                "tag / command sets — after a completed disconnect (engine data gone) or without one (engine data of the "
+                "previous session still present) — each registration followed by its UodInfo; oracle per lint call "
+                "w.r.t. the current set and the text of that call; (5) malformed text (mutated lines, random unicode lines, odd indentation). "
                 "The oracle looks at the lint output per offending line. Non-trivial = the analyzers "
                 "produce at least one item or raise.")
     cases = [dict(c["case"], kind="corpus") for c in load_corpus("C19")] + exhaustive_cases() + repeated_cases() \
@@ -878,7 +978,7 @@ def run(ctx: Check) -> int:
             ctx.count("item:" + it.split(":")[1] + (":fix" if it.endswith(":fix") else ""))
         for f in judge(c, o):
             ctx.fail(f)
-    # -- stream "history": one engine id, one document, linted repeatedly while the definition changes
+    # -- stream "history": one engine, several editor sessions, linted repeatedly while the definition changes
     hcases = history_cases(ctx)
     hobs = {id(c): observe_history(c, i) for i, c in enumerate(hcases)}
     hpub = [{"steps": c["steps"]} for c in hcases]
@@ -890,6 +990,14 @@ def run(ctx: Check) -> int:
         o = hobs[id(c)]
         ctx.count("history:lints", len(o["lints"]))
         ctx.count("history:definition-changes", sum(1 for st in c["steps"] if st["op"] == "uodinfo"))
+        ctx.count("history:re-registrations-with-engine-data-kept",
+                  sum(1 for k, st in enumerate(c["steps"]) if st["op"] == "register" and st.get("keep") and k > 0))
+        ctx.count("history:sessions", len({ln["session"] for ln in o["lints"]}))
+        seen: dict = {}
+        for ln in o["lints"]:      # another session linted another text under the same version number before
+            if any(t != ln["text"] for (sid, t) in seen.get(ln["version"], []) if sid != ln["session"]):
+                ctx.count("history:lints-with-a-version-another-session-used-for-another-text")
+            seen.setdefault(ln["version"], []).append((ln["session"], ln["text"]))
         ctx.count("history:undefined-references-now",
                   sum(1 for ln in o["lints"] if ln["defined"] for r in ln["refs"]
                       if r["name"] not in (ln["tags"] if r["kind"] == "tag" else ln["cmds"])))
@@ -924,12 +1032,14 @@ def replay(obj) -> int:
         k = 0
         for st in c["steps"]:
             if st["op"] == "register":
-                print("register            (engine re-registers: no definition, create_analysis_input.cache_clear())")
+                print("register            handle_RegisterEngineMsg " + ("while the aggregator still holds the engine's data "
+                      "(the previous disconnect did not complete)" if st.get("keep") else "(after handle_EngineDisconnected, if "
+                      "it was registered)"))
             elif st["op"] == "uodinfo":
                 print(f"uodinfo             tags {[n for n, _ in st['tags']]}  commands {[n for n, _ in st['cmds']]}")
             else:
                 ln = o["lints"][k]
-                print(f"lint v{st['version']} {st['text']!r}\n    implementation: {ln['lint']}\n    model:          {mi[k]}")
+                print(f"lint session {st.get('session', 0)} version {st['version']} {st['text']!r}\n    implementation: {ln['lint']}\n    model:          {mi[k]}")
                 k += 1
         fails = judge_history(c, o)
         for f in fails:
